@@ -200,10 +200,12 @@ def main():
             violations.append(("oracle-bug", {"property": prop, "kind": "no-failing-input-found",
                                               "relation": "Cnn.check x (Model x) = true (the check's own oracle is inconsistent with its model)",
                                               "case": cases[int(oracle_rejects_model[0])].line(), "detail": notes[-1]}))
-        if disagree and getattr(mod, "SPEC_IS_ORACLE", False) and not any(k == "failing-input" for k, _ in violations):
+        spec = getattr(mod, "SPEC_IS_ORACLE", False)
+        spec_dis = [c for c in disagree if (spec(c) if callable(spec) else spec)]
+        if spec_dis and not any(k == "failing-input" for k, _ in violations):
             # the compared projection is exactly what the property speaks about and the model is its closed-form
             # specification (proved complete): a disagreement is an input on which the implementation violates it
-            c = min(disagree, key=lambda c: len(c.args))
+            c = min(spec_dis, key=lambda c: len(c.args))
             violations.append(("failing-input", {
                 "property": prop, "kind": "failing-input", "case": c.line(), "cases": [x.line() for x in disagree[:20]],
                 "observed": proj(c, impl.get(c.id, "")), "expected_by_specification": proj(c, model.get(c.id, "")),
